@@ -245,7 +245,7 @@ Definition from_grammar_core (builtins : shell -> list (string * string)) (g : g
           let expr2 := spec (distribute_descriptions (expr0_of g)) in
           do ord <- resolution_order defs2;
           let table := resolve_in_order ord (table0_of defs2) in
-          do _ <- spaces table (spaces_fuel table expr2) expr2 [] false;
+          do _ <- spaces table (spaces_fuel table expr2) expr2 [] false false;
           Ok (command, propagate (collapse (resolve table expr2)) 0)
       end
   end.
@@ -268,7 +268,7 @@ Proof.
   fold (defs2_of (spec_of builtins sh us fs (defs1_of defs0)) (defs1_of defs0)).
   destruct (resolution_order _) as [ord| | |]; cbn [obind]; try reflexivity.
   fold (table0_of (defs2_of (spec_of builtins sh us fs (defs1_of defs0)) (defs1_of defs0))).
-  match goal with |- context [spaces ?t ?f ?e [] false] =>
-    change f with (spaces_fuel t e); destruct (spaces t (spaces_fuel t e) e [] false) as [[]| | |] end;
+  match goal with |- context [spaces ?t ?f ?e [] false false] =>
+    change f with (spaces_fuel t e); destruct (spaces t (spaces_fuel t e) e [] false false) as [[]| | |] end;
     reflexivity.
 Qed.
